@@ -456,7 +456,7 @@ func main() {
 	for _, o := range binary {
 		for _, k1 := range ks {
 			for _, k2 := range ks {
-				if !vh.Thorough() && rnd.Intn(100) >= 35 {
+				if !vh.Thorough() && rnd.Intn(100) >= 14 {
 					continue
 				}
 				emit(bin(o.name, leaf(0), leaf(1)), k1, k2)
@@ -464,7 +464,7 @@ func main() {
 		}
 	}
 	// 3. ternary and in
-	nrand := 400
+	nrand := 300
 	if vh.Thorough() {
 		nrand = 3000
 	}
